@@ -155,3 +155,13 @@ class EqS(pg.Object):
 
 class EqT(EqS):
   """Subclass of the opted-in class."""
+
+
+@pg.members([('units', pg.typing.Int()), ('act', pg.typing.Str())])
+class Layer(pg.Object):
+  """C13: element evolved by pg.evolve."""
+
+
+@pg.members([('layers', pg.typing.List(pg.typing.Object(Layer)))])
+class Net(pg.Object):
+  """C13: value evolved by pg.evolve."""
